@@ -720,6 +720,10 @@ def runHistory (vf : VerFns) (W : World) (R : Render) (cfg : Cfg) (fuel : Nat) :
   | fs, cache, .get id pdv :: rest =>
     let r := getData vf W cfg fuel cache (fs.call R id pdv)
     r.1 :: runHistory vf W R cfg fuel fs r.2.1 rest
-  | fs, cache, s :: rest => runHistory vf W R cfg fuel (fs.apply s) cache rest
+  | fs, cache, .write p s :: rest => runHistory vf W R cfg fuel (fs.apply (.write p s)) cache rest
+  | fs, cache, .delete p :: rest => runHistory vf W R cfg fuel (fs.apply (.delete p)) cache rest
+  | fs, cache, .mkdir p :: rest => runHistory vf W R cfg fuel (fs.apply (.mkdir p)) cache rest
+  | fs, cache, .swap p :: rest => runHistory vf W R cfg fuel (fs.apply (.swap p)) cache rest
+  | fs, cache, .setTop n :: rest => runHistory vf W R cfg fuel (fs.apply (.setTop n)) cache rest
 
 end Vinegar.Yaml
